@@ -877,7 +877,48 @@ pub fn cmd_c20(args: &Args) -> i32 {
                 .collect();
             // structured families: one sphere dominating the others (nested / concentric),
             // a single sphere, very unequal radii, points (zero radius), far from the origin
-            match rng.below(8) {
+            match rng.below(10) {
+                6 => {
+                    // centres on one line (an axis, or a random direction); in half of the sets every
+                    // sphere lies inside the first one and touches it from the inside (internally tangent)
+                    let c0 = sph[0].0;
+                    let d = match rng.below(4) {
+                        0 => DVec3::X,
+                        1 => DVec3::Y,
+                        2 => DVec3::Z,
+                        _ => DVec3::new(rng.sym(), rng.sym(), rng.sym() + 1.5).normalize(),
+                    };
+                    let tangent = rng.chance(0.5);
+                    let r0 = 1.0 + rng.f64();
+                    for (i, s) in sph.iter_mut().enumerate() {
+                        if tangent {
+                            if i == 0 {
+                                *s = (c0, r0);
+                            } else {
+                                let ri = r0 * (0.05 + 0.9 * rng.f64());
+                                let side = if rng.chance(0.5) { 1.0 } else { -1.0 };
+                                *s = (c0 + d * (side * (r0 - ri)), ri);
+                            }
+                        } else {
+                            s.0 = c0 + d * (rng.sym() * 5.0);
+                        }
+                    }
+                }
+                7 => {
+                    // equal spheres on an axis-aligned lattice: their poles tie in every direction
+                    let r = 0.2 + 0.3 * rng.f64();
+                    let m = 2 + rng.below(2) as i64;
+                    sph.clear();
+                    for i in 0..m {
+                        for j in 0..m {
+                            for k in 0..(1 + rng.below(2) as i64) {
+                                sph.push((DVec3::new(i as f64, j as f64, k as f64), r));
+                            }
+                        }
+                    }
+                    rng.shuffle(&mut sph);
+                    sph.truncate(2 + rng.below(sph.len() as u64 - 1) as usize);
+                }
                 0 => {
                     let c = DVec3::new(rng.sym() * 4.0, rng.sym() * 4.0, rng.sym() * 4.0);
                     let big = 20.0 + 10.0 * rng.f64();
